@@ -275,6 +275,8 @@ class Polygon(Shape2D):
 
     @area.setter
     def area(self, value):
+        if not value > 0:
+            raise ValueError("Area must be greater than zero.")
         scale = np.sqrt(value / self.area)
         self._rescale(scale)
 
@@ -556,6 +558,8 @@ class Polygon(Shape2D):
 
     @circumcircle_radius.setter
     def circumcircle_radius(self, value):
+        if not value > 0:
+            raise ValueError("Radius must be greater than zero.")
         self._rescale(value / self.circumcircle_radius)
 
     @property
@@ -619,6 +623,8 @@ class Polygon(Shape2D):
 
     @incircle_radius.setter
     def incircle_radius(self, value):
+        if not value > 0:
+            raise ValueError("Radius must be greater than zero.")
         self._rescale(value / self.incircle_radius)
 
     def compute_form_factor_amplitude(self, q, density=1.0):  # noqa: D102
